@@ -162,6 +162,9 @@ func (*Options).Load returns (err)
   let loaded := useConfigFile && FileExists(path)
   ensures @output-kept [C17] o.ReporterConfig.Output == old(o.ReporterConfig.Output)
   ensures @explicit-missing-config [C16] useConfigFile && !FileExists(path) && CtxIsSet(c, "config") ==> err != nil
+  // ... and ONLY then: the "file not found" error is raised for a missing file that was named explicitly (a missing
+  // default configuration file is not an error)
+  ghost before call 1 New { assert @only-an-explicit-missing-config [C16] !exists && CtxIsSet(c, "config") }
   ensures @config-is-the-named-file [C16] err == nil && loaded ==> FileNameOf(RdSrc(cfgRd)) == path
   ensures @database [C16] err == nil && !CtxIsSet(c, "no-database") ==> o.GlobalConfig.DbFileName == Prec(CtxIsSet(c, "database"), CtxString(c, "database"), loaded && CfgHas(cfgRd, 1), CfgStr(cfgRd, 1), "food.yaml")
   // --no-database: no recipe-book file is named; WithFileReaders turns the empty name into an empty input
